@@ -596,6 +596,7 @@ class DestHandler:
     def _handle_eof_without_previous_metadata(self, eof_pdu: EofPdu) -> None:
         self._params.fp.progress = eof_pdu.file_size
         self._params.fp.file_size_eof = eof_pdu.file_size
+        self._params.fp.crc32 = eof_pdu.file_checksum
         self._params.acked_params.metadata_missing = True
         if self._params.fp.progress > 0:
             # Clear old list, deferred procedure for the whole file is now active.
@@ -762,6 +763,10 @@ class DestHandler:
             self._handle_metadata_packet(packet_holder.to_metadata_pdu())
             if self._params.acked_params.deferred_lost_segment_detection_active:
                 self._reset_nak_activity_parameters()
+                if self.states.step == TransactionStep.RECEIVING_FILE_DATA:
+                    # The EOF PDU was already received, continue with the deferred lost segment
+                    # procedure instead of waiting for an EOF PDU again.
+                    self.states.step = TransactionStep.WAITING_FOR_MISSING_DATA
         elif packet_holder.pdu_directive_type == DirectiveType.EOF_PDU:  # type: ignore
             self._handle_eof_without_previous_metadata(packet_holder.to_eof_pdu())
             if self._params.acked_params.deferred_lost_segment_detection_active:
